@@ -412,3 +412,37 @@ Example C13_0rtt_reject_no_retransmit_example :
   SentPH.Model.sCbs (SentPH.Model.run st1 [(SentPH.Model.ODrop sph_Enc0RTT 20, orc); (SentPH.Model.OTimeout 5000 0, orc)]) = [].
 Proof. vm_compute. repeat split. Qed.
 Print Assumptions C13_0rtt_reject_no_retransmit_example.
+
+(** ---- buffered 0-RTT packets at the server (ServerAccept; the hand-over count [early] of SNewConn is compared with the
+    number of datagrams the real new connection received, unit serveraccept) ---- *)
+
+(** Over every arrival order (0-RTT before the Initial, duplicated, for many DCIDs, after the connection exists, with
+    Retries, refusals and expiry in between): the 0-RTT packets handed to new connections plus those still queued never
+    exceed those that were queued — a buffered packet is handed over at most once, to the one connection created for its
+    DCID (whose queue is deleted with the hand-over); all others were dropped. *)
+Theorem C13_server_0rtt_at_most_once : forall c ops s' outs, srun c s0 ops = (s', outs) ->
+  n_handed outs + qsum (zq s') <= n_queued outs /\ 0 <= qsum (zq s').
+Proof. exact sa_early_at_most_once. Qed.
+Print Assumptions C13_server_0rtt_at_most_once.
+
+(** The clean-up (run with the first datagram that arrives after nextZeroRTTCleanup) leaves no expired queue. *)
+Theorem C13_server_0rtt_expiry : forall s now k n e,
+  In (k, (n, e)) (zq (cleanup s now)) -> now < e /\ In (k, (n, e)) (zq s).
+Proof. exact cleanup_expired. Qed.
+Print Assumptions C13_server_0rtt_expiry.
+
+(** non-vacuity: two 0-RTT packets before their Initial are handed to the connection, a duplicate Initial and a later
+    0-RTT packet go to the existing connection; 0-RTT for another DCID expires unseen; a Retry deletes a queue *)
+Example C13_server_0rtt_example :
+  let c := mkCfg false true [9] [] in
+  let d1 := [1;1;1;1;1;1;1;1] in let d2 := [2;2;2;2;2;2;2;2] in let d3 := [3;3;3;3;3;3;3;3] in
+  let ops := [ SRecv 10 (SP0rtt d1); SRecv 11 (SP0rtt d1); SRecv 12 (SP0rtt d2);
+               SRecv 20 (SPinitial 1200 d1 [7] TkNone 0 true [5;5]);
+               SRecv 21 (SP0rtt d1); SRecv 22 (SPinitial 1200 d1 [7] TkNone 0 true [6;6]);
+               SRecv 30 (SP0rtt d3); SRecv 31 (SPinitial 1200 d3 [7] TkNone 9 true []);
+               SRecv (12 + saMax0RTTQueueingDuration + 1) SPvn ] in
+  snd (srun c s0 ops) = [ SQueued0RTT; SQueued0RTT; SQueued0RTT; SNewConn 0 d1 None false 0 2; SRouted 0; SRouted 0;
+                          SQueued0RTT; SRetry true; SDrop false ] /\
+  zq (fst (srun c s0 ops)) = [] /\ n_handed (snd (srun c s0 ops)) = 2 /\ n_queued (snd (srun c s0 ops)) = 4.
+Proof. vm_compute. repeat split. Qed.
+Print Assumptions C13_server_0rtt_example.
